@@ -39,7 +39,8 @@ type StoreInput struct {
 	Entries    []HEntry `json:"entries,omitempty"`
 	FailOpen   int      `json:"fail_open"`
 	FailCommit int      `json:"fail_commit"`
-	Flavor     int      `json:"flavor,omitempty"` // how the injected write error is wrapped (see Store.FailFlavor)
+	Flavor     int      `json:"flavor,omitempty"`     // how the injected write error is wrapped (see Store.FailFlavor)
+	FailWrite  int      `json:"fail_write,omitempty"` // the Write into the k-th opened block stream fails
 }
 
 // checkStoreTrace verifies the dangling-free invariant over the ordered commit log
@@ -93,7 +94,7 @@ func runStoreInput(rep *Report, in StoreInput, cf *CaseFile) (writes int) {
 		rep.Fail(prop, "stores/"+sig, what, in, exp, got)
 	}
 	st := NewStore()
-	st.FailOpenAt, st.FailCommit, st.FailFlavor = in.FailOpen, in.FailCommit, in.Flavor
+	st.FailOpenAt, st.FailCommit, st.FailFlavor, st.FailWriteAt = in.FailOpen, in.FailCommit, in.Flavor, in.FailWrite
 	ls := st.LinkSystem()
 	var lnk datamodel.Link
 	var err error
@@ -257,15 +258,24 @@ func scnStores(rep *Report, rng *Rng, tier string, outdir string) {
 		add(o)
 		// the same failure points with the error wrapped the way file-system block stores report it
 		// (errors.Is(err, fs.ErrNotExist)): oracle only, the model does not distinguish error values
-		for _, flavor := range []int{1, 2} {
+		for _, flavor := range []int{1, 2, 3, 4, 5, 0} {
 			for k := 1; k <= nw; k += step {
-				for _, commit := range []bool{false, true} {
+				for _, how := range []int{0, 1, 2} {
 					in := b
 					in.Flavor = flavor
-					if commit {
+					switch how {
+					case 1:
 						in.FailCommit = k
-					} else {
+					case 0:
+						if flavor == 0 {
+							continue // plain open / commit failures were run above
+						}
 						in.FailOpen = k
+					default:
+						in.FailWrite = k // the block stream itself refuses the bytes
+					}
+					if how == 1 && flavor == 0 {
+						continue
 					}
 					runStoreInput(rep, in, nil)
 					key, _ := json.Marshal(in)
